@@ -10,6 +10,164 @@ import (
 	"verif/sa/internal/core"
 )
 
+// runGoneThroughCombinators (C18 GONE-COMBINED): "the reader is gone" is not an
+// error of the pipeline. Commands that run several callbacks combine their
+// errors - run-parallel into a PipelineError, peach through errutil.Multi - so
+// the predicate with which the pipeline recognises reader-gone looks through
+// both combinators: besides errs.ReaderGone it examines PipelineError and an
+// interface with Unwrap() []error (in itself or in what it calls).
+func runGoneThroughCombinators(p *core.Program, r *core.Report) {
+	const rule = "GONE-COMBINED"
+	isNamedT := func(t types.Type, pkg, name string) bool { return core.IsNamed(t, pkg, name) }
+	var roots []*ssa.Function
+	for _, fn := range p.FnsInPkg(pkgEval) {
+		if fn.Parent() != nil || fn.Signature.Results().Len() != 1 || !isBoolType(fn.Signature.Results().At(0).Type()) {
+			continue
+		}
+		hit := false
+		core.Instrs(fn, func(ins ssa.Instruction) {
+			if ta, ok := ins.(*ssa.TypeAssert); ok && isNamedT(ta.AssertedType, pkgEval+"/errs", "ReaderGone") {
+				hit = true
+			}
+		})
+		if hit {
+			roots = append(roots, fn)
+		}
+	}
+	// the predicates proper: those used by the pipeline (callers of a root
+	// that themselves return bool are predicates too)
+	if !r.Anchor(rule, "a boolean function of pkg/eval that tests for errs.ReaderGone", len(roots) >= 1) {
+		return
+	}
+	scope := reachableInPkg(roots, pkgEval)
+	sawPipeline, sawUnwrap := false, false
+	for fn := range scope {
+		core.Instrs(fn, func(ins ssa.Instruction) {
+			ta, ok := ins.(*ssa.TypeAssert)
+			if !ok {
+				return
+			}
+			if isNamedT(ta.AssertedType, pkgEval, "PipelineError") {
+				sawPipeline = true
+			}
+			if it, ok := ta.AssertedType.Underlying().(*types.Interface); ok {
+				for i := 0; i < it.NumMethods(); i++ {
+					m := it.Method(i)
+					if m.Name() != "Unwrap" {
+						continue
+					}
+					if sig, ok := m.Type().(*types.Signature); ok && sig.Results().Len() == 1 {
+						if _, isSlice := sig.Results().At(0).Type().Underlying().(*types.Slice); isSlice {
+							sawUnwrap = true
+						}
+					}
+				}
+			}
+		})
+	}
+	construct := "the reader-gone predicate looks through error combinators"
+	switch {
+	case sawPipeline && sawUnwrap:
+		r.OK(rule, construct, p.Pos(roots[0].Pos()), "it examines PipelineError and Unwrap() []error besides errs.ReaderGone")
+	case !sawPipeline:
+		r.Bad(rule, construct, p.Pos(roots[0].Pos()), "a PipelineError made of reader-gone exceptions (run-parallel { range 1000 } { range 1000 } | nop) is not recognised: the pipeline reports 'reader gone' as its exception")
+	default:
+		r.Bad(rule, construct, p.Pos(roots[0].Pos()), "a combined error made of reader-gone exceptions (range 1000 | peach {|x| put $x } | nop gives 'multiple errors: reader gone; reader gone') is not recognised: the pipeline reports it as its exception")
+	}
+}
+
+// runNilIsAValue (C18 NIL-IS-A-VALUE): $nil is Go's nil and travels through
+// value channels like any other value. Whether a channel of values is
+// exhausted is therefore told by the comma-ok form of the receive (or by
+// range), never by the received value being nil: a reader that takes a
+// received nil for "closed" stops at the first $nil, drops everything after
+// it, and can leave the writer blocked for ever.
+func runNilIsAValue(p *core.Program, r *core.Report) {
+	const rule = "NIL-IS-A-VALUE"
+	isValueChan := func(v ssa.Value) bool {
+		ch, ok := v.Type().Underlying().(*types.Chan)
+		if !ok {
+			return false
+		}
+		it, ok := ch.Elem().Underlying().(*types.Interface)
+		return ok && it.Empty()
+	}
+	comparedWithNil := func(v ssa.Value) ssa.Instruction {
+		seen := map[ssa.Value]bool{}
+		var hit ssa.Instruction
+		var walk func(x ssa.Value)
+		walk = func(x ssa.Value) {
+			if x == nil || seen[x] || hit != nil || x.Referrers() == nil {
+				return
+			}
+			seen[x] = true
+			for _, ref := range *x.Referrers() {
+				switch u := ref.(type) {
+				case *ssa.BinOp:
+					if (u.Op == token.EQL || u.Op == token.NEQ) && (isNilConst(u.X) || isNilConst(u.Y)) {
+						// only when the comparison decides control flow
+						for _, r2 := range *u.Referrers() {
+							if _, isIf := r2.(*ssa.If); isIf {
+								hit = u
+							}
+						}
+					}
+				case *ssa.Phi:
+					walk(u)
+				case *ssa.Store:
+					// a local variable holding the received value
+					if a, ok := u.Addr.(*ssa.Alloc); ok && u.Val == x {
+						for _, r2 := range *a.Referrers() {
+							if ld, ok := r2.(*ssa.UnOp); ok && ld.Op == token.MUL {
+								walk(ld)
+							}
+						}
+					}
+				}
+			}
+		}
+		walk(v)
+		return hit
+	}
+	n := 0
+	for _, fn := range p.FnsInPkg(pkgEval) {
+		core.Instrs(fn, func(ins ssa.Instruction) {
+			var recvd []ssa.Value
+			switch x := ins.(type) {
+			case *ssa.UnOp:
+				if x.Op == token.ARROW && isValueChan(x.X) && !x.CommaOk {
+					recvd = append(recvd, x)
+				}
+			case *ssa.Select:
+				idx := 2
+				for _, st := range x.States {
+					if st.Dir != types.RecvOnly {
+						continue
+					}
+					if isValueChan(st.Chan) {
+						for _, ref := range *x.Referrers() {
+							if ex, ok := ref.(*ssa.Extract); ok && ex.Index == idx {
+								recvd = append(recvd, ex)
+							}
+						}
+					}
+					idx++
+				}
+			}
+			for _, v := range recvd {
+				n++
+				construct := core.FnKey(fn) + " receives a value without the comma-ok form"
+				if cmp := comparedWithNil(v); cmp != nil {
+					r.Bad(rule, construct+" and compares it with nil", p.InsPos(cmp), "a received nil is taken to mean that the channel is closed, but $nil is a value that programs put into pipes: the reader stops at the first $nil, drops the values after it, and the writer can block for ever on the full channel")
+				} else {
+					r.OK(rule, construct, p.InsPos(ins), "the received value is not compared with nil to decide control flow")
+				}
+			}
+		})
+	}
+	r.Count(rule+" receives from channels of values without comma-ok in pkg/eval", n)
+}
+
 // runExtNoValues (C18 EXT-NO-VALUES): an external command sees only the byte
 // side of its ports. The value channel of the stage's input is shared by
 // every command that runs in that stage, so nothing reachable from
